@@ -200,4 +200,98 @@ theorem C16_drop_will_receivers_partial (caps : Caps) (s : Server) (hr : ReachSe
   rw [entitledSession_retainedState] at g2
   exact ⟨g1, g2, g3, g4⟩
 
+/-! ## C16 for every sequential history: DISCONNECT -/
+
+/-- **C16, DISCONNECT (item 2).**  `s` reachable by a sequential history; `c` = client object `i`, a network client
+    with an open connection; the op is a DISCONNECT packet on `c`'s connection with reason code `rc` and (MQTT 5,
+    optional) session expiry interval `sei`; the packet is not the protocol error "session expiry raised from zero"
+    (`seiViolation`, see `C16_disconnect_violation_publishes_will`).  An MQTT 3 DISCONNECT has no reason code: `rc = 0`.
+
+    * `rc ≠ 0x04` (0x00 and every other reason code): the outputs are exactly the close of the connection — no will
+      event, no PUBLISH to anybody —, the delayed will registered under the id is removed, the will of the object is
+      cleared and the object is stopped;
+    * `rc = 0x04`: as a connection loss (item 1) — with the will flag set and no delay the outputs are exactly the
+      will's fan-out and event, then the close; with a delay the will is registered in `willDelayed`; without a will
+      nothing but the close.
+    * hence: the will event appears iff `rc = 0x04 ∧ flag ∧ delay = 0`. -/
+theorem C16_disconnect_iff (caps : Caps) (s : Server) (hr : ReachSeq caps s) (i rc : Nat) (sei : Option Nat)
+    (hi : i < s.objs.length) (hin : (getObj s i).inline = false) (hopen : (getObj s i).isOpen = true)
+    (hv : seiViolation (getObj s i) sei = false) :
+    let c := getObj s i
+    let r := step s (.recv c.conn (.disconnect rc sei))
+    (rc ≠ 0x04 → r.2 = [.closed c.conn] ∧ r.1.willDelayed = assocDel s.willDelayed c.id ∧
+      (getObj r.1 i).will.flag = false ∧ (getObj r.1 i).stopped = true) ∧
+    (rc = 0x04 →
+      (c.will.flag = true ∧ c.will.delay = 0 →
+        r.2 = willOutputs (discState s i sei) c ++ [.closed c.conn]) ∧
+      (c.will.flag = true ∧ c.will.delay > 0 →
+        r.2 = [.closed c.conn] ∧ r.1.willDelayed = assocSet s.willDelayed c.id (delayedWillMsg c)) ∧
+      (c.will.flag = false → r.2 = [.closed c.conn] ∧ r.1.willDelayed = s.willDelayed)) ∧
+    (willEvent c.id ∈ r.2 ↔ rc = 0x04 ∧ c.will.flag = true ∧ c.will.delay = 0) := by
+  intro c r
+  obtain ⟨hs, hw, hcm, _⟩ := hr.inv
+  have hst : (getObj s i).stopped = false := by
+    have := hs.os i
+    rw [hopen] at this
+    simpa using this.symm
+  have hc := hcm i hi hin
+  have normal := fun hrc => step_disconnect_normal s i rc sei hi hrc hv hopen hst hin hc
+  have g := getObj_discState s i sei hi
+  have k := discObj_keep c sei
+  have hmsg : willMsg (getObj (discState s i sei) i) = willMsg c := by
+    rw [g]; unfold willMsg; rw [k.will, k.id]
+  have hdm : delayedWillMsg (getObj (discState s i sei) i) = delayedWillMsg c := by
+    rw [g]; unfold delayedWillMsg willMsg; rw [k.will, k.id]
+  have withWill : rc = 0x04 →
+      (c.will.flag = true ∧ c.will.delay = 0 → r.2 = willOutputs (discState s i sei) c ++ [.closed c.conn]) ∧
+      (c.will.flag = true ∧ c.will.delay > 0 →
+        r.2 = [.closed c.conn] ∧ r.1.willDelayed = assocSet s.willDelayed c.id (delayedWillMsg c)) ∧
+      (c.will.flag = false → r.2 = [.closed c.conn] ∧ r.1.willDelayed = s.willDelayed) := by
+    intro hrc
+    subst hrc
+    obtain ⟨e1, e2⟩ := step_disconnect_with_will s i sei hi hv hopen hst hin hc
+    refine ⟨fun ⟨hf, hd⟩ => ?_, fun ⟨hf, hd⟩ => ?_, fun hf => ?_⟩
+    · show (step s (.recv (getObj s i).conn (.disconnect 0x04 sei))).2 = _
+      rw [e1, sendLWT_now _ i (by rw [g, k.will]; exact hf) (by rw [g, k.will]; exact hd), hmsg, g, k.id]
+      rfl
+    · have e := sendLWT_delayed (discState s i sei) i (by rw [g, k.will]; exact hf) (by rw [g, k.will]; exact hd)
+      constructor
+      · show (step s (.recv (getObj s i).conn (.disconnect 0x04 sei))).2 = _
+        rw [e1, e]; rfl
+      · show (step s (.recv (getObj s i).conn (.disconnect 0x04 sei))).1.willDelayed = _
+        rw [e2, e, hdm, g, k.id]; rfl
+    · have e := sendLWT_noflag (discState s i sei) i (by rw [g, k.will]; exact hf)
+      constructor
+      · show (step s (.recv (getObj s i).conn (.disconnect 0x04 sei))).2 = _
+        rw [e1, e]; rfl
+      · show (step s (.recv (getObj s i).conn (.disconnect 0x04 sei))).1.willDelayed = _
+        rw [e2, e]; rfl
+  refine ⟨normal, withWill, ⟨fun h => ?_, fun ⟨hrc, hf, hd⟩ => ?_⟩⟩
+  · have hne : willEvent c.id ≠ .closed c.conn := by unfold willEvent; intro h; cases h
+    by_cases hrc : rc = 0x04
+    · obtain ⟨w1, w2, w3⟩ := withWill hrc
+      by_cases hf : c.will.flag = true
+      · by_cases hd : c.will.delay = 0
+        · exact ⟨hrc, hf, hd⟩
+        · rw [(w2 ⟨hf, Nat.pos_of_ne_zero hd⟩).1] at h
+          simp at h; exact absurd h hne
+      · rw [(w3 (by simpa using hf)).1] at h
+        simp at h; exact absurd h hne
+    · rw [(normal hrc).1] at h
+      simp at h; exact absurd h hne
+  · rw [((withWill hrc).1 ⟨hf, hd⟩)]
+    unfold willOutputs
+    simp
+
+/-- the restriction `seiViolation = false` of `C16_disconnect_iff` is needed: a DISCONNECT with reason 0x00 that raises
+    the session expiry interval from zero is a protocol error (server.go `processDisconnect`:
+    `ErrProtocolViolationZeroNonZeroExpiry`), the read loop ends with an error and the will IS published — the
+    behaviour MQTT 5 §3.14.2.2.2 / §3.1.2.5 prescribes for a protocol error. -/
+theorem C16_disconnect_violation_publishes_will :
+    let s := runSrv (init {})
+      [.connect 1 { ver := 5, id := [99, 49], will := some { topic := [120], payload := [119] } }]
+    seiViolation (getObj s 1) (some 10) = true ∧
+    willEvent [99, 49] ∈ (step s (.recv 1 (.disconnect 0 (some 10)))).2 := by
+  decide
+
 end Mochi.Broker
